@@ -167,6 +167,16 @@ class CHECK(Check):
             actual = tuple(m.lex_types(parsing.strip_tail(text)))
         except parsing.LexError:
             actual = None
+        if kind.endswith(('/nl', '/lc', '/bc')) and not any(' ' in m.lexeme[t] for t in payload):
+            # line breaks and comments between tokens are white space: the token stream must be the one of the one-line spelling
+            try:
+                plain = tuple(m.lex_types(parsing.strip_tail(m.text_of(payload))))
+            except parsing.LexError:
+                plain = None
+            if plain is not None and plain == tuple(payload) and actual != plain:
+                res.violation(f'{d}|layout-changes-token-stream|{kind.split("/")[1]}',
+                              f'text {text!r} lexes as {" ".join(actual) if actual is not None else "LexError"}; the same tokens on one line lex as {" ".join(plain)}')
+                return res
         out = parsing.outcome(text, d)
         res.count('outcome_' + out.kind)
         if actual is None:
